@@ -67,6 +67,11 @@ def make_taint(W):
                 ty = sub.replace("&mut ", "").replace("&", "").split("<")[0].strip()
                 if any((im.get("trait") or "").split("::")[-1] == tr and im.get("self_adt") == ty and not im.get("derived") and "fmt" in im.get("methods", {}) for im in P.impls):
                     return True
+        if n in ("public_key_bytes", "public_key") and t[1] in P.fns:
+            # a crate-local getter is public information only if its body returns the verifying key of a signer (directly or through
+            # MsgSigner::public_key_bytes); a "public key" field filled from other bytes (half of a key pair, say) is judged by where it comes from
+            from lib import signer_pubkey
+            return signer_pubkey(W, W.ev(t[1]).ret()) is not None
         if n in ("verifying_key", "public_key_bytes", "public_key", "calc_srv_value", "srv_value", "make_cert", "make_dele", "make_srep"):
             return True
         if n == "sign" and ("Signer" in p or "MsgSigner" in p or "SigningKey" in p):
